@@ -46,16 +46,47 @@ func safeFloatToDec(f float64) decimal.Decimal {
 	return decimal.NewFromFloat(f)
 }
 
+// fitInt32 returns the result of an int32 operation as int32, or promoted to
+// int64 if it does not fit.
+func fitInt32(res int64) interface{} {
+	if res < math.MinInt32 || res > math.MaxInt32 {
+		return res
+	}
+	return int32(res)
+}
+
+// addInt64 adds two int64 values and returns Missing on overflow.
+func addInt64(a, b int64) interface{} {
+	res := a + b
+	if (b > 0 && res < a) || (b < 0 && res > a) {
+		return Missing
+	}
+	return res
+}
+
+// mulInt64 multiplies two int64 values and returns Missing on overflow.
+func mulInt64(a, b int64) interface{} {
+	if a == 0 || b == 0 {
+		return int64(0)
+	}
+	res := a * b
+	if res/b != a || (a == -1 && b == math.MinInt64) || (b == -1 && a == math.MinInt64) {
+		return Missing
+	}
+	return res
+}
+
 // Add will add together two numerical values. It accepts and returns int32,
-// int64, float64 and decimal128.
+// int64, float64 and decimal128. The sum of two int32 values is promoted to
+// int64 if it overflows; Missing is returned if an int64 result overflows.
 func Add(num, inc interface{}) interface{} {
 	switch num := num.(type) {
 	case int32:
 		switch inc := inc.(type) {
 		case int32:
-			return num + inc
+			return fitInt32(int64(num) + int64(inc))
 		case int64:
-			return int64(num) + inc
+			return addInt64(int64(num), inc)
 		case float64:
 			return float64(num) + inc
 		case primitive.Decimal128:
@@ -66,9 +97,9 @@ func Add(num, inc interface{}) interface{} {
 	case int64:
 		switch inc := inc.(type) {
 		case int32:
-			return num + int64(inc)
+			return addInt64(num, int64(inc))
 		case int64:
-			return num + inc
+			return addInt64(num, inc)
 		case float64:
 			return float64(num) + inc
 		case primitive.Decimal128:
@@ -108,15 +139,16 @@ func Add(num, inc interface{}) interface{} {
 }
 
 // Mul will multiply the two numerical values. It accepts and returns int32,
-// int64, float64 and decimal128.
+// int64, float64 and decimal128. The product of two int32 values is promoted
+// to int64 if it overflows; Missing is returned if an int64 result overflows.
 func Mul(num, mul interface{}) interface{} {
 	switch num := num.(type) {
 	case int32:
 		switch mul := mul.(type) {
 		case int32:
-			return num * mul
+			return fitInt32(int64(num) * int64(mul))
 		case int64:
-			return int64(num) * mul
+			return mulInt64(int64(num), mul)
 		case float64:
 			return float64(num) * mul
 		case primitive.Decimal128:
@@ -127,9 +159,9 @@ func Mul(num, mul interface{}) interface{} {
 	case int64:
 		switch mul := mul.(type) {
 		case int32:
-			return num * int64(mul)
+			return mulInt64(num, int64(mul))
 		case int64:
-			return num * mul
+			return mulInt64(num, mul)
 		case float64:
 			return float64(num) * mul
 		case primitive.Decimal128:
